@@ -293,7 +293,7 @@ PROPS = {
                 not_decided=["numeric values of the mirrored catalogue on constants (bounded)"]),
     "C12": dict(level="other", contracts=["numpoly.polynomial_from_attributes", "numpoly.clean_attributes", "numpoly.ndpoly.astype",
                                           "numpoly.polynomial", "numpoly.aspolynomial", "numpoly.multiply", "numpoly.true_divide",
-                                          "numpoly.floor_divide", "numpoly.full", "numpoly.full_like", "numpoly.result_type",
+                                          "numpoly.floor_divide", "numpoly.full", "numpoly.full_like", "numpoly.result_type", "numpoly.common_type",
                                           "numpoly.zeros_like", "numpoly.ones_like"],
                 explanation="Definedness ghost state: polynomial_from_attributes (through which every constructor and operation "
                 "returns) is proved to write every coefficient on every path (compiled setter only under its precondition, numpy "
